@@ -4,6 +4,7 @@ The Rust harness evaluates the same request lines on the real implementation; th
 two streams.
 -/
 import PubgrubModel
+import PubgrubModel.Diag
 
 open Pubgrub Pubgrub.Protocol
 
@@ -113,6 +114,18 @@ def evalLine (line : String) : String :=
   | "det" :: _ => "not-modelled"
   | ["report", toks, _reg] => ReportDriver.reportLine toks
   | ["collapse", toks, _reg, _root, _rv] => ReportDriver.collapseLine toks
+  | ["inv2", vs, dbg, root, rv, _reg, _strat, _fault, answers] =>
+    match rv.toNat? with
+    | none => bad
+    | some rv =>
+      if vs == "bits" then Diag.inv2Line SolveDriver.bitsIO (dbg == "dbg") root rv answers
+      else Diag.inv2Line SolveDriver.rangeIO (dbg == "dbg") root rv answers
+  | ["diag", vs, dbg, root, rv, _reg, _strat, _fault, answers] =>
+    match rv.toNat? with
+    | none => bad
+    | some rv =>
+      if vs == "bits" then Diag.diagLine SolveDriver.bitsIO (dbg == "dbg") root rv answers
+      else Diag.diagLine SolveDriver.rangeIO (dbg == "dbg") root rv answers
   | ["solve", vs, dbg, root, rv, _reg, _strat, _fault, answers] =>
     match rv.toNat? with
     | none => bad
